@@ -2209,11 +2209,11 @@ def correspond(ctx):
     if len(dis) <= 10:
         l2_random(ctx, 90 if quick else 900, 40 if quick else 120, dis)
     if len(dis) <= 10:
-        l2_option_variants(ctx, 18 if quick else 180, 30 if quick else 100, dis)
+        l2_option_variants(ctx, 18 if quick else 120, 30 if quick else 100, dis)
     if len(dis) <= 10:
         l2_cores(ctx, 250 if quick else 2500, dis)
     if len(dis) <= 10:
-        l2_cores_sim(ctx, 60 if quick else 600, dis, 4 if quick else 1)
+        l2_cores_sim(ctx, 60 if quick else 300, dis, 4 if quick else 1)
     if len(dis) <= 10:
         l3_memories(ctx, 300 if quick else 3000, dis)
     if len(dis) <= 10:
